@@ -10,8 +10,7 @@
                     in the order the code evaluates them (the first failing
                     operation decides ValueError vs IndexError)
      read_atom      the whitespace fallback used after an IndexError
-     MODEL          int(line[10:14]) (a ValueError puts "MODEL" on errlist, which
-                    suppresses every later MODEL record)
+     MODEL          always kept (04a78e7: the number is read leniently, never raises)
      TER/END/ENDMDL never raise
 
    Abstractions (stated in notes/C07.md):
@@ -215,22 +214,30 @@ Section Parsers.
         else find5 r (S i) 0%nat
     end.
 
-  (* read_atom(line): None of five floats -> words[size+1] -> IndexError *)
-  Definition read_atom (het : bool) (line : string) : presult :=
+  (* the fixed-column line read_atom(line) rebuilds: words[b-1] is the residue
+     number, words[b..b+4] the five numbers; columns 1-22 are kept as they are.
+     None: no five consecutive float words (words[size+1] -> IndexError) *)
+  Definition fallback_line (line : string) : option string :=
     let words := tokens line in
     let size := (List.length words - 1)%nat in
     match find5 (rev (tl words)) 0 0 with
-    | None => PIdx
+    | None => None
     | Some iword =>
         let b := (size - iword)%nat in
         match nth_error words (b - 1), nth_error words b, nth_error words (b + 1),
               nth_error words (b + 2), nth_error words (b + 3), nth_error words (b + 4) with
         | Some w0, Some w1, Some w2, Some w3, Some w4, Some w5 =>
-            let newline := slice 0 22 line ++ rjust 4 w0 ++ rjust 3 "" ++ rjust 8 w1 ++ rjust 8 w2
-                           ++ rjust 8 w3 ++ rjust 6 w4 ++ rjust 6 w5 in
-            parse_cols het line newline
-        | _, _, _, _, _, _ => PIdx
+            Some (slice 0 22 line ++ rjust 4 w0 ++ rjust 3 "" ++ rjust 8 w1 ++ rjust 8 w2
+                  ++ rjust 8 w3 ++ rjust 6 w4 ++ rjust 6 w5)
+        | _, _, _, _, _, _ => None
         end
+    end.
+
+  (* read_atom(line) *)
+  Definition read_atom (het : bool) (line : string) : presult :=
+    match fallback_line line with
+    | None => PIdx
+    | Some newline => parse_cols het line newline
     end.
 
   (* ---- the line loop ---------------------------------------------------- *)
@@ -259,7 +266,7 @@ Section Parsers.
         match read_atom het line with
         | POk a => ORec (RAtom a)
         | PVal => ORaise        (* raised inside the except-handler: propagates *)
-        | PIdx => OSkip
+        | PIdx => ORaise        (* no five numbers: ValueError since bd8c339 (C07-F7 fix) *)
         end
     end.
 
@@ -270,8 +277,7 @@ Section Parsers.
     else if r =? "HETATM" then atom_outcome true line
     else if r =? "TER" then ORec RTer
     else if r =? "END" then ORec REnd
-    else if r =? "MODEL" then
-      match py_int (slice 10 14 line) with Some _ => ORec RModel | None => OErr end
+    else if r =? "MODEL" then ORec RModel   (* never raises since 04a78e7 (C07-F8 fix) *)
     else OSkip.
 
   (* pdblist is accumulated in reverse; None = ValueError raised *)
@@ -298,6 +304,48 @@ Section Parsers.
     read_loop lines [] [].
 
 End Parsers.
+
+(* ---- the line loop with the OTHER record classes made explicit -----------------
+   The ~50 record classes Biomolecule ignores are not modelled; what their parsers
+   do on a line is an oracle [oerr] (true: KeyError/ValueError, the record name goes
+   on errlist and suppresses later records OF THAT NAME; false: an object is
+   appended, or an IndexError is swallowed).  [read_pdbG] is read_pdb with that
+   made explicit; Proofs/Other.v shows it yields the same relevant records as
+   [read_pdb] for EVERY oracle, because errlist suppression is an exact match on
+   the record name. *)
+Definition five_names : list string := ["ATOM"; "HETATM"; "TER"; "END"; "MODEL"].
+
+Section ParsersG.
+  Variable fok : string -> bool.
+  Variable oerr : string -> bool.
+
+  Definition line_outcomeG (line : string) : outcome :=
+    let r := rec_name line in
+    if mem_str r five_names || negb (mem_str r known_records) then line_outcome fok line
+    else if oerr line then OErr else OSkip.
+
+  Fixpoint read_loopG (lines : list string) (acc : list rec) (errl : list string)
+    : option (list rec * list string) :=
+    match lines with
+    | [] => Some (rev acc, errl)
+    | raw :: rest =>
+        if is_empty raw then Some (rev acc, errl)
+        else
+          let line := strip raw in
+          if is_empty line then read_loopG rest acc errl
+          else if mem_str (rec_name line) errl then read_loopG rest acc errl
+          else
+            match line_outcomeG line with
+            | OSkip => read_loopG rest acc errl
+            | ORec r => read_loopG rest (r :: acc) errl
+            | OErr => read_loopG rest acc (errl ++ [rec_name line])%list
+            | ORaise => None
+            end
+    end.
+
+  Definition read_pdbG (lines : list string) : option (list rec * list string) :=
+    read_loopG lines [] [].
+End ParsersG.
 
 (* file text -> readline() chunks of an io.StringIO (split after every \n) *)
 Fixpoint rl (s : string) : string * list string :=
